@@ -1552,8 +1552,8 @@ def merge_verdict(obs, a):
         if not ok:
             viol = ('C04:concurrent:call-not-merged-into-current-value',
                     f'change m:_par {canonj(payload)} (thread {t}): write_par was given {canon(v)} while the cached value was '
-                    f'{canon(cur)}; the payload merged into the current value is {json.dumps(exp)} (another thread changed the '
-                    f'parameter between the merge and the driver call); replies {obs["replies"]}')
+                    f'{canon(cur)}; the payload merged into that value is {json.dumps(exp)} (the driver got members of a value '
+                    f'that was not current any more: a change nobody requested reaches the hardware); replies {obs["replies"]}')
             break
     if not a['ok']:
         dis = {'model': 'the events are not a run of the change-section system (two requests handled at the same time, or '
@@ -1755,6 +1755,174 @@ def run_shared(ctx, res, big):
 
 
 # ----------------------------------------------------------------------------------------
+# the same histories THROUGH THE REAL REQUEST LOOP (frappy/protocol/interface/handler.py + tcp.py): request lines in,
+# reply lines out.  "the client receives an error report of the fitting class": the class the client sees is made by
+# RequestHandler.handle from the exception (error_<action> <specifier> [<SECoP class name>, text, {}]); in the other
+# streams vlib.node.Node.request stands in for that code.
+# ----------------------------------------------------------------------------------------
+class WireSock:
+    """scripted socket: everything the client sends, in chunks; what the node sends back is collected"""
+
+    def __init__(self, chunks):
+        self.chunks = list(chunks)
+        self.out = []
+
+    def settimeout(self, t):
+        pass
+
+    def recv(self, n):
+        return self.chunks.pop(0) if self.chunks else b''
+
+    def sendall(self, b):
+        self.out.append(bytes(b))
+
+    def shutdown(self, how):
+        pass
+
+    def close(self):
+        pass
+
+
+class WireLog:
+    def __init__(self):
+        self.errors = []
+
+    def error(self, *a):
+        self.errors.append(a)
+
+    exception = error
+
+    def info(self, *a):
+        pass
+
+    debug = warning = info
+
+
+class WireServer:
+    def __init__(self, dispatcher):
+        self.dispatcher = dispatcher
+        self.log = WireLog()
+        self.detailed_errors = False
+
+
+def wire_expressible(st):
+    """can the request be written as one SECoP line that reaches the same handler with the same arguments?"""
+    spec = st['spec']
+    if st['kind'] == 'assign' or not spec or spec != spec.strip() or ' ' in spec or '\n' in spec:
+        return False
+    try:
+        return json.loads(json.dumps(st['data'])) == st['data'] and 'UNSERIALISABLE' not in canonj(st['data'])
+    except Exception:
+        return False
+
+
+def wire_run(case, chunking):
+    """the history of `case` (requests expressible as a line) sent as ONE byte stream to a real TCPRequestHandler"""
+    import contextlib
+    import io
+    import frappy.protocol.interface.handler as fh
+    from frappy.protocol.interface.tcp import TCPRequestHandler
+    from frappy.protocol.interface import encode_msg_frame, decode_msg
+    from vlib.node import error_class
+    steps = [st for st in case['steps'] if wire_expressible(st)]
+    sess = Session(case['nodespec'])
+    if sess.errors:
+        return {'errors': sess.errors}
+    disp = sess.node.dispatcher
+    served = []
+    for action in ('change', 'do', 'read'):
+        def handler(conn, specifier, data, action=action, orig=getattr(disp, 'handle_' + action)):
+            n = len(served)
+            st = steps[n]
+            served.append(n)
+            ctx = sess.before(n, st)
+            try:
+                reply = orig(conn, specifier, data)
+            except Exception as e:
+                sess.after(n, st, ctx, ('error_' + action, specifier, [error_class(e), type(e).__name__, {}]))
+                raise
+            sess.after(n, st, ctx, reply)
+            return reply
+        setattr(disp, 'handle_' + action, handler)
+    stream = b''.join(encode_msg_frame(st['kind'], st['spec'], st['data']) for st in steps)
+    rng = random.Random(chunking)
+    chunks = []
+    while stream:
+        k = rng.choice([1, 7, 64, 4096, len(stream)])
+        chunks.append(stream[:k])
+        stream = stream[k:]
+    sock = WireSock(chunks)
+    srv = WireServer(disp)
+    saved = fh.formatExtendedStack, fh.formatExtendedTraceback
+    fh.formatExtendedStack = fh.formatExtendedTraceback = lambda *a, **k: ''     # the dumps are not observed
+    try:
+        with contextlib.redirect_stdout(io.StringIO()):
+            TCPRequestHandler(sock, ('127.0.0.1', 4711), srv)
+    finally:
+        fh.formatExtendedStack, fh.formatExtendedTraceback = saved
+    sess.close()
+    lines = [l for l in b''.join(sock.out).split(b'\n') if l]
+    rec = sess.record()
+    rec['nsteps'] = len(steps)
+    rec['nlines'] = len(lines)
+    rec['died'] = [str(e)[:300] for e in srv.log.errors][:2]
+    if len(lines) == len(steps) == len(rec['steps']):
+        for st, line in zip(rec['steps'], lines):
+            # what the CLIENT gets: the reply line made by the request loop
+            st['obs']['reply'] = reply_obs(decode_msg(line))
+    return rec
+
+
+def run_wire(ctx, res, big):
+    ncases = ctx.budget(60, 400)
+    reported = set()
+    ndis = 0
+    for _ in range(ncases):
+        seed = ctx.rng.randrange(1 << 40)
+        chunking = ctx.rng.randrange(1 << 30)
+        rec = wire_run(gen_case(seed, big), chunking)
+        if rec['errors']:
+            res.count('wire.node-rejected-by-frappy')
+            continue
+        ref = {'wire': {'seed': seed, 'big': big, 'chunking': chunking}}
+        if not (rec['nlines'] == rec['nsteps'] == len(rec['steps'])):
+            # not one reply line per request line: C07's subject; here the history cannot be aligned
+            res.disagreements.append({'case': ref, 'model': f'{rec["nsteps"]} requests, one reply line each',
+                                      'impl': {'handled': len(rec['steps']), 'lines': rec['nlines'], 'log': rec['died']}})
+            continue
+        model, judge = ctx.driver.batch(model_and_judge(ctx, rec))
+        for a in (model, judge):
+            if 'driver_error' in a:
+                raise RuntimeError(f'driver error: {a["driver_error"]} (wire case {seed})')
+        res.evaluations += len(rec['steps'])
+        res.traces += len(rec['steps'])
+        res.count('wire.histories')
+        res.count('wire.requests', len(rec['steps']))
+        for st in rec['steps']:
+            res.count('wire.' + classify(st))
+        if any(st['obs']['calls'] for st in rec['steps']) and any(st['obs']['reply'][0] == 'error' for st in rec['steps']):
+            res.nontriv(['wire', seed, chunking])
+        if ctx.model_ok:
+            d = compare(model, rec)
+            if d is not None:
+                ndis += 1
+                if ndis <= 3:
+                    res.disagreements.append({'case': dict(ref, step=d['step']), 'model': {d['field']: d['model']},
+                                              'impl': {d['field']: d['impl'], 'req': d['req']}})
+        if judge['bad'] is not None:
+            idx, why = judge['bad']
+            sig = sig_of(rec, idx, why) + ':request-loop'
+            if sig not in reported:
+                reported.add(sig)
+                st = rec['steps'][idx]
+                res.violations.append({
+                    'sig': sig,
+                    'what': f'(through the request loop) request line {st["req"]} answered {st["obs"]["reply"]} with driver '
+                            f'calls {st["obs"]["calls"]}; the specification says: {why}',
+                    'case': ref, 'detail': {'step': idx, 'obs': {k: st['obs'][k] for k in ('reply', 'calls', 'emits')}}})
+
+
+# ----------------------------------------------------------------------------------------
 def gen_case(seed, big):
     rng = random.Random(seed)
     nodespec = gen_nodespec(rng, big)
@@ -1918,6 +2086,7 @@ def run(ctx):
     run_concurrent(ctx, res, big)
     run_merging(ctx, res, big)
     run_shared(ctx, res, big)
+    run_wire(ctx, res, big)
     res.count('cases', state['ncases'])
     skipped = state['skipped']
     if skipped:
@@ -1927,6 +2096,26 @@ def run(ctx):
 
 def replay(ctx, rp):
     c = rp['case']
+    if 'wire' in c:
+        wc = c['wire']
+        rec = wire_run(gen_case(wc['seed'], wc['big']), wc['chunking'])
+        if rec['errors']:
+            print('node rejected:', rec['errors'])
+            return 2
+        print('request lines:', rec['nsteps'], ' handled:', len(rec['steps']), ' reply lines:', rec['nlines'], rec['died'])
+        if not (rec['nlines'] == rec['nsteps'] == len(rec['steps'])):
+            return 1
+        model, judge = ctx.driver.batch(model_and_judge(ctx, rec))
+        for i, st in enumerate(rec['steps']):
+            mo = model['outs'][i] if 'outs' in model else None
+            print(f'[{i}] line  :', st['req'], ' driver script:', st['drv'])
+            print('     impl  :', st['obs']['reply'], 'calls', st['obs']['calls'], 'emits', st['obs']['emits'])
+            if mo:
+                print('     model :', mo['reply'], 'calls', mo['calls'], 'emits', mo['emits'])
+        print('judge :', judge)
+        d = compare(model, rec) if 'outs' in model else None
+        print('correspondence:', 'agree' if d is None else d)
+        return 0 if judge.get('bad') is None and d is None else 1
     if 'shared' in c:
         from vlib.sched import ReplayThenDefault
         sc = c['shared']
